@@ -279,6 +279,8 @@ _EXT_RAISES: Dict[str, List[ExcTok]] = {
     "builtins.next": [("builtins.StopIteration", True)],
     "inspect.signature": [("builtins.ValueError", True), ("builtins.TypeError", True)],
     "Path.unlink": [("builtins.OSError", False)],
+    "argparse.ArgumentParser.parse_args": [(EXCEPTION, False)],
+    "argparse.ArgumentParser.parse_known_args": [(EXCEPTION, False)],
     "list.remove": [("builtins.ValueError", True)],
     "set.remove": [(KEYERROR, True)],
     "dict.__delitem__": [(KEYERROR, True)],
